@@ -134,7 +134,8 @@ CBS = "oxidd_reorder::set_var_order::concurrent_bubble_sort::{closure#"
 def check_blocked(ctx, F, rule="E-PERM.blocked"):
     """`concurrent_bubble_sort` lets several workers swap adjacent levels at once; a worker that swaps positions i and
     i+1 holds both in the shared `blocked` set, a queued task at j holds j and j+1.  From MIR of the worker closure,
-    every acyclic path through the body of the inner swap loop is executed symbolically (positions as offsets from
+    every acyclic path through the body of the inner swap loop is followed by a typestate analysis (abstract state: the
+    set of held positions, as offsets from
     the loop-head value of `i`; branch decisions on one named flag are kept consistent): starting with {i, i+1} held,
     after the inserts / removes of the path and after handing {j, j+1} to every pushed task, the worker must hold
     exactly {i', i'+1} when it continues with i' = i +/- 1, and nothing when it fetches a new task, waits or returns.
